@@ -41,7 +41,10 @@ P = dict(
                 "wrappers, chrono, span) executed with an allocator trap (malloc family and operator new interposed; an entry while a library call is on the stack "
                 "is an alloc record), under valgrind memcheck (uninitialised-value and invalid-access reports) and under ASan+UBSan; (c) dirty-storage construction: "
                 "every container/string/view/bitset/optional/variant/function wrapper is default- and value-initialised on storage pre-filled with 0xAB/0x00/0xFF at "
-                "capacities 0,1,15,16,254,255,256 and must report the empty state, then is used once and destroyed (also under valgrind). A clean run is not a proof "
+                "capacities 0,1,15,16,254,255,256 and must report the empty state, then is used once and destroyed (also under valgrind); (d) over-aligned element "
+                "types (alignas 32/64) in every owner placed on its own alignof boundary: alignof(owner) >= alignof(T) and every element address aligned, UBSan alignment "
+                "check active; (e) the exception-injection scenarios of C03 (an element operation throws in the middle of an owner operation) for their lifetime and "
+                "sanitizer records. A clean run is not a proof "
                 "of memory safety: red zones miss far-away and intra-object accesses."),
     level_note="ASan/UBSan/valgrind only see what the workloads execute; intra-object overflow is visible only through the model-based monitors of C01/C04/C09",
     technique="compiler sanitizers (ASan+UBSan), valgrind memcheck, allocator-interposition trap and dirty-storage construction over valid-use workloads",
@@ -62,6 +65,11 @@ P = dict(
         reuse("C02_sv_char", "harness/C08_sv.cpp", chars("char"), stride=2, shards=8),
         reuse("C02_cstr_char", "harness/C18_str.cpp", ["-DVF_WIDE=0"], stride=4, shards=8),
         reuse("C02_cmem_char", "harness/C18_mem.cpp", ["-DVF_WIDE=0"], stride=4),
+        # valid use includes element types whose constructors/assignments throw: the exception-injection scenarios of C03, for their lifetime/sanitizer records
+        reuse("C02_throw", "harness/C03_throw.cpp", [], shards=4),
+        # over-aligned element types: alignof(owner) >= alignof(T), every reachable element address aligned, UBSan alignment check on the library's accesses
+        Unit("C02_align", "harness/C02_align.cpp", defs=["-Wno-invalid-offsetof"], flavours={"quick": ["asan-cc"], "thorough": ["asan-cc", "asanO0-nocc", "clang14-cc"]},
+             shards={"quick": 1, "thorough": 1}),
     ] + clone("C06", 4) + clone("C09", 4, 2, pick=lambda u: u.name.endswith(("_p0", "_tracked", "fmset")))
     + clone("C10", 8, 2) + clone("C14", 4, 2, pick=lambda u: u.name.endswith(("_0", "_2"))) + clone("C17", 4, 2, pick=lambda u: u.name.endswith(("_g0", "_g2")))
     # (e) the constexpr kernels of C13 (containers, strings, views, ~80 algorithms, charconv, chrono): GCC's constant evaluator is an
